@@ -14,11 +14,12 @@ import AgeModel.Exec.PluginExec
 import AgeModel.Exec.CliExec
 import AgeModel.Exec.KeyFileExec
 import AgeModel.Exec.SshEncExec
+import AgeModel.Exec.GoSemExec
 open AgeModel
 
 def handlers : List (String → List String → Option String) :=
   [Exec.Stream.handle, Exec.Format.handle, Exec.File.handle, Exec.Armor.handle, Exec.Bech32.handle,
-   Exec.Plugin.handle, Exec.Cli.handle, Exec.KeyFile.handle, Exec.SshEnc.handle]
+   Exec.Plugin.handle, Exec.Cli.handle, Exec.KeyFile.handle, Exec.SshEnc.handle, Exec.GoSem.handle]
 
 def dispatch (line : String) : String :=
   match Wire.splitOn line.trimAscii.toString ' ' with
